@@ -47,27 +47,76 @@ func resolveRB(p *Prog, r *Report) *rbInfo {
 		r.Anchor("C10.R0", "roundrobin.Rebalancer / rbServer", "types not found")
 		return nil
 	}
-	rb.pool, rb.cur, rb.orig, rb.good, rb.timer, rb.backoff, rb.ratings = "servers", "curWeight", "origWeight", "good", "timer", "backoffDuration", "ratings"
-	for _, f := range []string{rb.cur, rb.orig, rb.good} {
-		if structFieldType(rb.rec, f) == nil {
-			r.Anchor("C10.R0", "roundrobin.rbServer."+f, "field not found")
-			return nil
-		}
-	}
-	for _, f := range []string{rb.pool, rb.timer, rb.backoff, rb.ratings} {
-		if structFieldType(rb.typ, f) == nil {
-			r.Anchor("C10.R0", "roundrobin.Rebalancer."+f, "field not found")
-			return nil
-		}
-	}
-	rb.adjust = p.MethodOf(rb.typ, "adjustWeights")
-	rb.reset = p.MethodOf(rb.typ, "reset")
-	if rb.adjust == nil || rb.reset == nil {
-		r.Anchor("C10.R0", "roundrobin.Rebalancer.adjustWeights / reset", "methods not found")
-		return nil
-	}
 	// apply event: the wrapped balancer's UpsertServer is invoked (weights take effect)
 	rb.apply = NewEvents(p, func(in ssa.Instruction) bool { _, ok := IsInvoke(in, "UpsertServer"); return ok })
+	// routines by role (names of the reference tree first): adjust = the unexported method, called from ServeHTTP,
+	// that may apply weights; reset = the unexported method, called from the exported UpsertServer, that may apply weights
+	sameRecvCallees := func(from *ssa.Function) []*ssa.Function {
+		var out []*ssa.Function
+		if from == nil {
+			return nil
+		}
+		for _, c := range Calls(from) {
+			if f := c.Common().StaticCallee(); f != nil && recvNamed(f) == rb.typ && !f.Object().Exported() && len(c.Common().Args) > 0 && stripConv(c.Common().Args[0]) == ssa.Value(from.Params[0]) {
+				out = append(out, f)
+			}
+		}
+		return out
+	}
+	pick := func(name string, from *ssa.Function) *ssa.Function {
+		if m := p.MethodOf(rb.typ, name); m != nil {
+			return m
+		}
+		var sel []*ssa.Function
+		for _, f := range sameRecvCallees(from) {
+			if rb.apply.May(f) {
+				sel = append(sel, f)
+			}
+		}
+		if len(sel) == 1 {
+			return sel[0]
+		}
+		return nil
+	}
+	rb.adjust = pick("adjustWeights", p.MethodOf(rb.typ, "ServeHTTP"))
+	rb.reset = pick("reset", p.MethodOf(rb.typ, "UpsertServer"))
+	if rb.adjust == nil || rb.reset == nil {
+		r.Anchor("C10.R0", "roundrobin.Rebalancer: adjustment routine (called from ServeHTTP) / reset routine (called from UpsertServer)", "not found by name or by role")
+		return nil
+	}
+	// fields by role (names of the reference tree first)
+	isInt := isPlainBasic(types.Int)
+	storedByAdjust := map[string]bool{}
+	for _, f := range reachableStatic(p, rb.adjust) {
+		for _, b := range f.Blocks {
+			for _, in := range b.Instrs {
+				if st, ok := in.(*ssa.Store); ok {
+					if n, name, _, ok := fieldOf(st.Addr); ok && n == rb.rec {
+						storedByAdjust[name] = true
+					}
+				}
+			}
+		}
+	}
+	rb.cur = fieldByRole(rb.rec, "curWeight", isInt, func(f string) bool { return storedByAdjust[f] })
+	rb.orig = fieldByRole(rb.rec, "origWeight", isInt, func(f string) bool { return !storedByAdjust[f] })
+	rb.good = fieldByRole(rb.rec, "good", isPlainBasic(types.Bool), nil)
+	rb.pool = fieldByRole(rb.typ, "servers", func(t types.Type) bool {
+		sl, ok := t.Underlying().(*types.Slice)
+		return ok && derefNamed(sl.Elem()) == rb.rec
+	}, nil)
+	rb.timer = fieldByRole(rb.typ, "timer", isTimeT, nil)
+	rb.backoff = fieldByRole(rb.typ, "backoffDuration", isDurationT, nil)
+	rb.ratings = fieldByRole(rb.typ, "ratings", func(t types.Type) bool {
+		sl, ok := t.Underlying().(*types.Slice)
+		return ok && isPlainBasic(types.Float64)(sl.Elem())
+	}, nil)
+	for i, f := range []string{rb.cur, rb.orig, rb.good, rb.pool, rb.timer, rb.backoff, rb.ratings} {
+		if f == "" {
+			r.Anchor("C10.R0", "roundrobin.Rebalancer / rbServer: field in the role of "+[]string{"curWeight", "origWeight", "good", "servers", "timer", "backoffDuration", "ratings"}[i], "no field could be bound to this role (by name or by use)")
+			return nil
+		}
+	}
 	return rb
 }
 
